@@ -142,3 +142,36 @@ Qed.
 (* the v1 / v2 images differ in the outer type word only: a parser of the other layout refuses them *)
 Lemma iotlb_layouts_distinct : uconst "VHOST_IOTLB_MSG" <> uconst "VHOST_IOTLB_MSG_V2".
 Proof. vm_compute. discriminate. Qed.
+
+(* ---- ring-configuration validity: the expressions of is_valid / is_log_addr_valid / get_log_addr regenerated from
+   vhost_kern/mod.rs, vhost_kern/vdpa.rs and backend.rs (Gen.GenKValid) against the specification's ---- *)
+From VV Require Import Gen.GenKValid.
+Lemma kv_size_bad_spec q mx : kv_size_bad q mx = (mx <? q) || (q =? 0) || negb (pow2 q).
+Proof.
+  unfold kv_size_bad, pow2. destruct (mx <? q), (N.eqb_spec q 0) as [->|Hq]; cbn [orb negb andb]; try reflexivity.
+Qed.
+Lemma kvd_size_bad_same q mx : kvd_size_bad q mx = kv_size_bad q mx.
+Proof. reflexivity. Qed.
+Lemma kv_ring_sizes q : kv_desc_table_size q = 16 * q /\ kv_avail_ring_size q = 6 + 2 * q /\ kv_used_ring_size q = 6 + 8 * q.
+Proof. repeat split; reflexivity. Qed.
+Lemma kv_log_rules fl has v :
+  kv_log_invalid fl has = negb (N.land fl 1 =? 0) && negb has
+  /\ kv_log_addr fl has v = (if negb (N.land fl 1 =? 0) && has then v else 0).
+Proof. split; reflexivity. Qed.
+Fixpoint strs_eqb2 (a b : list string) : bool :=
+  match a, b with
+  | [], [] => true
+  | x :: ra, y :: rb => String.eqb x y && strs_eqb2 ra rb
+  | _, _ => false
+  end.
+(* around the expressions: the three ring ends are checked against guest memory (not for vDPA), the log rule decides last *)
+Definition kv_shape_ok : bool :=
+  strs_eqb2 kv_shape
+    ["let m = self . mem () . memory ()";
+     "if GuestAddress (config_data . desc_table_addr) . checked_add (desc_table_size) . is_none_or (| v | ! m . address_in_range (v)) return false";
+     "if GuestAddress (config_data . avail_ring_addr) . checked_add (avail_ring_size) . is_none_or (| v | ! m . address_in_range (v)) return false";
+     "if GuestAddress (config_data . used_ring_addr) . checked_add (used_ring_size) . is_none_or (| v | ! m . address_in_range (v)) return false";
+     "result config_data . is_log_addr_valid ()"]
+  && strs_eqb2 kvd_shape ["result config_data . is_log_addr_valid ()"].
+Lemma kv_shape_ok_true : kv_shape_ok = true.
+Proof. vm_compute. reflexivity. Qed.
